@@ -63,8 +63,9 @@ func NeedsHTMLEscape(s string) bool {
 func FormatAttr(val string) string {
 	var b strings.Builder
 
-	// Trim leading and trailing whitespace
-	val = strings.TrimSpace(val)
+	// Trim leading and trailing whitespace: HTML whitespace only, a no-break
+	// space (&nbsp;) at the edge of a value is part of the value
+	val = TrimHTMLSpace(val)
 
 	// Replace newlines with spaces
 	val = strings.ReplaceAll(val, "\n", " ")
